@@ -3,6 +3,11 @@ ENGINES = [
     {"name": "tlc-trace", "path": "spec/", "serves_properties": [],
      "kind_free_text": "explicit TLA+ specification checked with TLC; implementation traces recorded by harness/native/* from a scratch rebuild of /repo are validated by TLC against the same modules (spec/trace); TLC-generated behaviours are replayed into the code"},
 ]
-CHECKS = []
+CHECKS = [
+ {"id": "C01", "level": "model_checking",
+  "level_text": "TLC model-checks the executable TLA+ script VM / debugger-session specification (spec/ScriptVM.tla, spec/Debugger.tla) at small scope over the complete opcode alphabet, and TLC validates tens of thousands of executions recorded from the real Instance::step()/ContinueScript (rebuilt from the working tree) event by event against that specification: stack, alt stack, condition view, outcome, error label and failing operation. Model checking of the design plus conformance of the code on generated traces; not a proof about the C++.",
+  "level_note": "Trusted: my transcription of Bitcoin's script rules (DESIGN.md App. A), TLC, the Java hash overrides (self-tested), the native harness projection (harness/native/vharness.cpp). C++ exceptions of the number codec are identified with UNKNOWN_ERROR. Signature opcodes are C02's.",
+  "technique": "TLA+ spec + TLC model checking + TLC trace validation of native-harness executions (impl -> spec), exhaustive short scripts / operand tuples / grammar-directed long scripts / limit boundaries"},
+]
 _pending = "check not built yet in this round (construction order in DESIGN.md section 10); not claimed until its TLA+ model and conformance harness exist"
-NOT_APPLICABLE = [{"property_id": "C%02d" % i, "reason": _pending} for i in range(1, 19)]
+NOT_APPLICABLE = [{"property_id": "C%02d" % i, "reason": _pending} for i in range(1, 19) if "C%02d" % i not in {c["id"] for c in CHECKS}]
